@@ -370,6 +370,7 @@ func (un *Unit) callStatic(fr *Frame, st *State, callee *ssa.Function, binds []V
 	if callee.Origin() != nil {
 		full = callee.Origin().String()
 	}
+	un.leakSweep(fr, st, full, pos)
 	if v, ok := un.modelCall(fr, st, callee, full, args, ats, pos); ok {
 		return v
 	}
